@@ -97,4 +97,14 @@ CHECKS = {
   note='Writer and reference are mine; catalogue glasses restricted to unique single-token exact names; model glass '
        'index taken from the library\'s AbbeMaterial (C18 covers it).',
   design='3/C20'),
+ 'C10': dict(
+  technique='exhaustive enumeration of the 3 x 120 index tables against independently coded published rules, exact '
+            'quadrature Gram matrices, and Hypothesis-generated coefficient vectors / point sets (linearity, recovery) '
+            'plus lens wavefront decompositions against an independent lstsq fit',
+  level='Index tables, edge values, radial polynomials and (ortho)normality are decided completely (finite, enumerated); '
+        'linearity, recovery and the truncation-residual clause are searched over generated coefficient vectors, three '
+        'kinds of point sets and generated imaging lenses.',
+  note='Sine-term sign not fixed by the property (compared up to sign); fit tolerance scales with the condition number '
+       'of the sampled basis.',
+  design='3/C10'),
 }
